@@ -472,7 +472,7 @@ class World:
         return {k: (self.ureg.Quantity(v[1], self.ureg.UnitsContainer(v[2])) if isinstance(v, tuple) else v)
                 for k, v in kw.items()}
 
-    def run_impl(self, frames, forms, body):
+    def run_impl(self, frames, forms, body, cleanup=True):
         """activate the frames (outermost first) with the given forms, call body(extra) inside;
         a last form 'percall' passes the last frame to body as (contexts, kwargs)."""
         ureg = self.ureg
@@ -497,7 +497,58 @@ class World:
         try:
             return go(0)
         finally:
-            if ureg._active_ctx.contexts:        # C12's subject; keep the scenarios independent
+            if cleanup and ureg._active_ctx.contexts:        # C12's subject; keep the scenarios independent
+                ureg.disable_contexts()
+
+    def outcome(self, fn):
+        import pint
+        try:
+            m = fn()
+        except pint.DimensionalityError:
+            return ("dimerr",)
+        except ZeroDivisionError:
+            return ("zerodiv",)
+        except pint.UndefinedUnitError:
+            return ("undef",)
+        except KeyError:
+            return ("keyerr",)
+        except ValueError:
+            return ("valueerr",)
+        except Exception as e:
+            return ("other", type(e).__name__)
+        if isinstance(m, (int, F)) and not isinstance(m, bool):
+            return ("exact", F(m))
+        return ("float", float(m))
+
+    def raise_then_observe(self, frames, forms, kind, x, src, dst, bad, later):
+        """The body run under the activations RAISES (kind 'dimerr': it converts `bad` = (source, target)
+        that no rule links; kind 'value': an unrelated ValueError).  The exception leaves through every
+        activation form; nothing is reset by hand.  Then, on the same registry: convert (x, src) -> dst
+        with no context active, and inside a later `with ureg.context(later)`."""
+        ureg = self.ureg
+
+        def body(extra):
+            a, kw = extra if extra else ((), {})
+            if kind == "dimerr":
+                ureg.Quantity(F(1), ureg.UnitsContainer(bad[0])).to(ureg.Unit(ureg.UnitsContainer(bad[1])), *a, **kw)
+            raise ValueError("unrelated failure inside the body")
+
+        def conv():
+            return ureg.Quantity(x, ureg.UnitsContainer(src)).to(ureg.Unit(ureg.UnitsContainer(dst))).magnitude
+        try:
+            try:
+                self.run_impl(frames, forms, body, cleanup=False)
+                raised = "nothing"
+            except Exception as e:
+                raised = type(e).__name__
+            after = self.outcome(conv)
+
+            def later_conv():
+                with ureg.context(*[self._arg(r) for r in later["refs"]], **self._kw(later["kw"])):
+                    return conv()
+            return {"raised": raised, "after": after, "later": self.outcome(later_conv)}
+        finally:
+            if ureg._active_ctx.contexts:
                 ureg.disable_contexts()
 
     def convert(self, frames, forms, x, src, dst, api="to"):
@@ -984,6 +1035,24 @@ def run(ck):
             stats["live conversions"] += 1
         stats["live stacks"] += 1
 
+    def scenario_raise(w, cases, frames, forms, kind, x, src, dst, bad, later, tag):
+        """a body that raises under the activations; afterwards the registry must answer as if nothing
+        had ever been enabled, and a later activation must get its DECLARED defaults"""
+        forms = [f if f != "percall" or kind == "dimerr" else "with" for f in forms]
+        out = w.raise_then_observe(frames, forms, kind, x, src, dst, bad, later)
+        info = {"kind": "after-raise", "frames": js(frames), "forms": list(forms), "body": kind, "bad": js(bad),
+                "later": js(later), "raised": out["raised"]}
+        want = "DimensionalityError" if kind == "dimerr" else "ValueError"
+        if out["raised"] != want:
+            oracle_fail(f"raise-propagates:{tag}:{kind}", f"the body's {want} left the activations as {out['raised']}",
+                        {"world": w.kind if w.text is None else w.text, "live": info})
+        scenario(w, cases, [], [], x, src, dst, tag + "-after-raise", impl=out["after"], live=dict(info, step="after"))
+        scenario(w, cases, [later], ["with"], x, src, dst, tag + "-after-raise", impl=out["later"], live=dict(info, step="later"))
+        stats["raising bodies"] += 1
+        stats["raising bodies:" + kind] += 1
+        for f in forms:
+            stats["raising form:" + f] += 1
+
     def _pv(v):
         if hasattr(v, "magnitude"):
             return ("q", F(v.magnitude), ucd(v._units))
@@ -1107,6 +1176,18 @@ def run(ck):
             fr2 = [{"refs": [("name", first)], "kw": {}}, {"refs": [("name", second)], "kw": {}}]
             for forms in (["with", "with"], ["enable", "enable"], ["with", "percall"], ["enable", "deco"], ["deco", "with"]):
                 scenario_live(wd, cases_d, fr2, forms, F(3, 2), s_u, d_u, "bundled-shortcut")
+    # bodies that raise under every activation form; afterwards nothing may be left active, and a later
+    # `with ureg.context('sp')` must see the declared n = 1, not the n of the finished call
+    nm, thz, amp = {"nanometer": F(1)}, {"terahertz": F(1)}, {"ampere": F(1)}
+    for stack in ([{"refs": [("name", "sp")], "kw": {"n": F(2)}}],
+                  [{"refs": [("name", "boltzmann")], "kw": {}}, {"refs": [("alias", "sp")], "kw": {"n": F(3)}}],
+                  [{"refs": [("name", "spectroscopy")], "kw": {"n": F(5, 4)}}, {"refs": [("name", "energy")], "kw": {}}]):
+        k_ = len(stack)
+        for forms in (["with"] * k_, ["enable"] * k_, ["deco"] * k_, ["with"] * (k_ - 1) + ["percall"],
+                      ["deco"] + ["with"] * (k_ - 1), ["enable"] * (k_ - 1) + ["deco"]):
+            for kind in ("dimerr", "value"):
+                scenario_raise(wd, cases_d, stack, forms, kind, F(500), nm, thz, (nm, amp),
+                               {"refs": [("name", "sp")], "kw": {}}, "bundled")
     groups.append((wd, cases_d))
 
     # ---------------------------------------------------------------- (B) a directed world: collisions, precedence, redefinitions
@@ -1174,6 +1255,16 @@ def run(ck):
             for forms in (["with"] * n, ["enable"] * n, ["with"] * (n - 1) + ["percall"],
                           ["enable"] * (n - 1) + (["deco"] if len(frames[-1]["refs"]) == 1 else ["with"]), pick_forms(rng, frames)):
                 scenario_live(wb, cases_b, frames, forms, F(3, 2), src, dst, "directed")
+    # bodies that raise: rules, redefinitions and keyword values must all be gone afterwards
+    for stack, src, dst, later in [
+            ([N("A", n=5)], U(ua=1), U(ub=1), N("A")), ([N("C")], U(ua2=1), U(ua=1), N("R")),
+            ([N("A", n=5), N("B")], U(ua=1), U(uc=1), N("B")), ([N("B", n=7), N("C", m=9)], U(ua=1), U(ud=1), N("C")),
+            ([N("S")], U(kiloua1=1), U(ua=1), N("A"))]:
+        k_ = len(stack)
+        for forms in (["with"] * k_, ["enable"] * k_, ["deco"] * k_, ["with"] * (k_ - 1) + ["percall"],
+                      ["deco"] + ["enable"] * (k_ - 1), ["with"] * (k_ - 1) + ["deco"]):
+            for kind in ("dimerr", "value"):
+                scenario_raise(wb, cases_b, stack, forms, kind, F(3, 2), src, dst, (U(ud=1), U(ua=1)), later, "directed")
     # redefinitions are visible exactly while active: before / inside / after on the SAME registry
     before = wb.convert([], [], F(1), U(ua2=1), U(ua=1))
     inside = wb.convert([N("C")], ["with"], F(1), U(ua2=1), U(ua=1))
@@ -1230,6 +1321,21 @@ def run(ck):
             stats["random scenarios"] += 1
             if depth >= 2 and rng.random() < 0.25:
                 scenario_live(w, cases_w, frames, pick_forms(rng, frames), x, src, dst, "random")
+            if rng.random() < 0.2 and all(r[1] != "unknown_ctx" for fr in frames for r in fr["refs"]):
+                # a body that raises under these activations: a pair no rule links if one is found, else a ValueError
+                kind, bad = "value", (src, dst)
+                if rng.random() < 0.6:
+                    for _ in range(6):
+                        bs, bd = rnd_unit(rng, w, rng.choice(w.nodes)[1]), rnd_unit(rng, w, rng.choice(w.nodes)[1])
+                        if bs and bd and w.reference(frames, F(1), bs, bd)[0] == [("dimerr",)]:
+                            kind, bad = "dimerr", (bs, bd)
+                            break
+                forms = pick_forms(rng, frames)
+                decoable = [i for i, fr in enumerate(frames) if len(fr["refs"]) == 1 and fr["refs"][0][0] in ("name", "alias")]
+                if decoable and rng.random() < 0.6:
+                    forms[rng.choice(decoable)] = "deco"
+                later = {"refs": [rng.choice(rng.choice(frames)["refs"])], "kw": {}}
+                scenario_raise(w, cases_w, frames, forms, kind, x, src, dst, bad, later, "random")
         groups.append((w, cases_w))
     ck.count("worlds", len(groups))
 
@@ -1366,6 +1472,17 @@ def replay(ck, path):
         else:
             w.add_object_context(raw, c.get("registered", True) if isinstance(c, dict) else True)
     x, src, dst = rp["convert"]
+    if "live" in rp and rp["live"].get("kind") == "after-raise":
+        lv = rp["live"]
+        lframes = [{"refs": [tuple(r) for r in fr["refs"]], "kw": unjs_kw(fr["kw"])} for fr in lv["frames"]]
+        later = {"refs": [tuple(r) for r in lv["later"]["refs"]], "kw": unjs_kw(lv["later"]["kw"])}
+        bad = [{k: F(v) for k, v in d_.items()} for d_ in lv["bad"]]
+        out = w.raise_then_observe(lframes, lv["forms"], lv["body"], F(x), {k: F(v) for k, v in src.items()},
+                                   {k: F(v) for k, v in dst.items()}, bad, later)
+        print(f"body raising ({lv['body']}) under forms {lv['forms']}: raised {out['raised']}")
+        print(f"step '{lv['step']}': observed now", js(out[lv["step"]]), "expected one of", rp.get("expected_one_of"))
+        w.close()
+        return 0
     if "live" in rp:
         lv = rp["live"]
         lframes = [{"refs": [tuple(r) for r in fr["refs"]], "kw": unjs_kw(fr["kw"])} for fr in lv["frames"]]
